@@ -157,7 +157,7 @@ def real_cases() -> List[Dict[str, Any]]:
 
 def plan(tier: str, seed: int, scale: float = 1.0) -> List[Any]:
     n = ncpu()
-    total = int((400 if tier == 'quick' else 5000) * scale)
+    total = int((800 if tier == "quick" else 6000) * scale)
     items: List[Any] = [{'kind': 'gen', 'n': max(1, total // n), 'seed': seed * 1000 + i} for i in range(n)]
     items.append({'kind': 'real'})
     return items
